@@ -36,6 +36,15 @@ class EngineModel:
         self.engine = repo.module('engine')
         self.YP = repo.cls('engine', 'YP')
 
+    def view(self, f):
+        """helper-inlined view of f (sa/inline.py): same-module helpers and helper methods of the same class pasted in"""
+        if not hasattr(self, '_views'):
+            self._views = {}
+        if f not in self._views:
+            from .inline import inline_view
+            self._views[f] = inline_view(self.repo, f)
+        return self._views[f]
+
     # -- CFGs -------------------------------------------------------------------------------
     def cfg(self, f, **kw):
         key = (f, tuple(sorted(kw.items())))
@@ -161,8 +170,18 @@ class EngineModel:
             return True
         # a predicate looked up at run time: function(*args) on a local that came out of eval_context
         if isinstance(call.func, ast.Name) and f.cls is self.YP:
+            # follow plain local-to-local copies (a helper pasted into a view hands its result over through a local)
+            names, todo = set(), [call.func.id]
+            while todo:
+                n0 = todo.pop()
+                if n0 in names:
+                    continue
+                names.add(n0)
+                for s in own_nodes(f.node):
+                    if isinstance(s, ast.Assign) and any(is_name(t, n0) for t in s.targets) and isinstance(s.value, ast.Name):
+                        todo.append(s.value.id)
             for s in own_nodes(f.node):
-                if isinstance(s, ast.Assign) and any(is_name(t, call.func.id) for t in s.targets):
+                if isinstance(s, ast.Assign) and any(isinstance(t, ast.Name) and t.id in names for t in s.targets):
                     if 'eval_context' in norm(s.value):
                         return True
                     # looked up through a helper and called with the caller's argument list
